@@ -156,6 +156,9 @@ C07_Clauses(cfg, D) ==
    pipeShape     |-> Applies => \A i \in 1..cfg.n : PipeShapeOK(D.pipes[i]),
    \* a failing item does not hold up the others: while its fallback is still running, the other workers get every other
    \* item done (the fallback of the `fbhold` schedule waits for exactly that, and says whether it waited in vain)
+   \* an exec callback that runs a whole flow of its own (own nodes, own store) gets that flow's behaviour whatever the other
+   \* workers are doing at the same time - the harness logs `innerbad` only when it does not
+   innerRunsIndependent |-> \A k \in 1..Len(D.h) : D.h[k].ev # "innerbad",
    noHoldUp      |-> \A i \in 1..cfg.n : \A k \in 1..Len(D.pipes[i].fbs) :
                         "stalled" \in DOMAIN D.pipes[i].fbs[k] => ~D.pipes[i].fbs[k].stalled,
    \* (an item's slot keeps holding that item's outcome also after the node object has run again)
